@@ -19,7 +19,7 @@ import langengine as le
 
 def profiles(tier):
     q = tier == "quick"
-    return [("MCGenAlias", {"MAXSTMTS": 4 if q else 5, "MAXDEPTH": 2, "EVENTS": 1}),
+    return [("MCGenAlias", {"MAXSTMTS": 4, "MAXDEPTH": 2, "EVENTS": 1}),
             ("MCGenMemFn", {"MAXSTMTS": 3 if q else 4, "MAXDEPTH": 3, "EVENTS": 1}),
             ("MCGenMemArr", {"MAXSTMTS": 3 if q else 4, "MAXDEPTH": 3, "EVENTS": 1}),
             ("MCGenStr", {"MAXSTMTS": 3 if q else 4, "MAXDEPTH": 3, "EVENTS": 1})]
